@@ -304,6 +304,8 @@ int main(int argc, char **argv) {
     hist({ATAN, 0, -INF, INF}, {COSH, 0, -INF, INF}, -40, 25, tol);
     hist({SIN, 0, -INF, INF}, {ATANH, 0, -INF, INF}, -5, 5, tol);
     hist({EXP, 0, -INF, 30}, {ACOSH, 0, -INF, INF}, -2, 9, tol);
+    // argument domain narrower than 1e-6 / than the 1e-4 merge threshold: single-point PL -> SOS2 with one lambda
+    single(EXP, 0, 1.0, 1.0000005, 0, tol); single(ATAN, 0, 2.0, 2.00005, 0, tol); single(SINH, 0, -1.0, -1.0 + 4e-7, 0, tol);
     // integer argument
     single(EXP, 0, -3, 6, 1, tol); single(ATAN, 0, -200, 200, 1, tol); single(POW, 4, -3, 3, 1, tol); single(SIN, 0, -7, 9, 1, tol);
   }
@@ -339,6 +341,60 @@ int main(int argc, char **argv) {
       if (X.empty() || X.front() != mc.lb(x) || X.back() != mc.ub(x)) exact = "range!=bounds";
       for (size_t i = 0; i < X.size() && exact == "ok"; ++i) if (fabsl(pl_ext(px, py, X[i]) - Y[i]) > 1e-9L * std::max<long double>(1, fabsl((long double)Y[i]))) exact = "Y!=PL(X)";
       std::printf("HR %d direct ok exact=%s ratio=0 x=0 f=0 enc=0 w=0 cls=within npl=%d nenc=%d arg[%.17g,%.17g] per=0\n", id++, exact.c_str(), (int)px.size(), (int)X.size(), mc.lb(x), mc.ub(x));
+    }
+  }
+  // PL reaching +-PLMaxVal (1e6) with wider argument bounds; argument fixed / entirely beyond the PL range
+  {
+    struct D { double px0, px1, lb, ub; };
+    const D ds[] = {{-1e6, 1e6, -2e6, 2e6}, {-1e6, 0, -3e6, 5}, {0, 1e6, -5, 3e6}, {-2, 2, 2, 2}, {-2, 2, 3, 3}, {-2, 2, -2, -2},
+                    {-2, 2, 1.5, 7}, {-2, 2, -9, -1.5}, {-2, 2, 5, 9}, {-2, 2, -9, -5}, {-2, 2, 0.25, 0.25}};
+    for (const D &d : ds) {
+      MockMC mc; int x = mc.AddVar(d.lb, d.ub), y = mc.AddVar(-1e100, 1e100);
+      std::vector<double> px, py; for (int i = 0; i <= 8; ++i) { px.push_back(d.px0 + (d.px1 - d.px0) * i / 8); double t = px.back() / std::max(std::fabs(d.px0), std::fabs(d.px1)); py.push_back(t * t * 3 - t); }
+      PLConstraint con({x}, PLPoints(px, py)); con.SetResultVar(y);
+      Enc enc; enc.xvar = x; mc.cur = &enc; std::string st = "ok";
+      try { PLConverter_MIP<MockMC> cvt(mc); cvt.Convert(con, 0); } catch (const std::exception &) { st = "exc"; }
+      mc.cur = nullptr;
+      std::string exact = "ok"; std::vector<double> X, Y;
+      for (int v : enc.lam) { X.push_back(enc.xc.count(v) ? enc.xc[v] : 0.0); Y.push_back(enc.yc.count(v) ? enc.yc[v] : 0.0); }
+      double el = std::max(d.lb, std::min(-1e6, px.front())), eu = std::min(d.ub, std::max(1e6, px.back()));
+      if (st != "ok" || X.empty() || !enc.convexity) exact = "no-sos2";
+      else if (X.size() >= 2 && (X.front() != el || X.back() != eu)) exact = "range!=bounds";
+      for (size_t i = 0; i < X.size() && exact == "ok"; ++i) {
+        if (X.size() == 1 && (X[0] < el - 1e-9 || X[0] > eu + 1e-9) && !(d.lb == d.ub)) exact = "point-outside";
+        long double want = pl_ext(px, py, X[i]);
+        if (fabsl(want - Y[i]) > 1e-9L * std::max<long double>(1, fabsl(want))) exact = "Y!=PL(X)";
+      }
+      // a fixed argument must be representable: some encoded point or segment contains it
+      if (exact == "ok" && d.lb == d.ub && !(X.front() <= d.lb && d.lb <= X.back())) exact = "fixed-argument-not-representable";
+      std::printf("HR %d direct ok exact=%s ratio=0 x=0 f=0 enc=0 w=0 cls=within npl=%d nenc=%d arg[%.17g,%.17g] per=0\n", id++, exact.c_str(), (int)px.size(), (int)X.size(), d.lb, d.ub);
+    }
+  }
+  // AMPL-style PL given by slopes and breakpoints through the origin (PLConParams(PLSlopes) -> PLPoints)
+  {
+    const std::vector<std::vector<double>> bps = {{0}, {-1, 2}, {1, 3, 4.5}, {-3, -1}, {-2, 0, 2}};
+    for (const auto &bp : bps) {
+      std::vector<double> sl; for (size_t i = 0; i <= bp.size(); ++i) sl.push_back(-1.5 + 1.25 * i);
+      PLConParams prm(PLSlopes(std::vector<double>(bp), std::vector<double>(sl), 0.0, 0.0));
+      const PLPoints &pp = prm.GetPLPoints();
+      // reference: g(0)=0, slope sl[i] on the i-th interval
+      auto g = [&](long double xq) {
+        long double acc = 0, cur = 0;  // integrate the slope from 0 to xq
+        int dir = xq >= 0 ? 1 : -1; long double a = 0;
+        std::vector<long double> cuts; for (double b : bp) if ((dir > 0 && b > 0 && b < xq) || (dir < 0 && b < 0 && b > xq)) cuts.push_back(b);
+        std::sort(cuts.begin(), cuts.end()); if (dir < 0) std::reverse(cuts.begin(), cuts.end());
+        cuts.push_back(xq);
+        for (long double cpt : cuts) {
+          long double mid = (a + cpt) / 2; size_t k = 0; while (k < bp.size() && mid > bp[k]) ++k;
+          acc += sl[k] * (cpt - a); a = cpt;
+        }
+        (void)cur; return acc;
+      };
+      std::string exact = "ok";
+      if (pp.x_.size() != bp.size() + 2) exact = "npoints";
+      for (size_t i = 0; i < pp.x_.size() && exact == "ok"; ++i)
+        if (fabsl(g(pp.x_[i]) - pp.y_[i]) > 1e-9L * std::max<long double>(1, fabsl(g(pp.x_[i])))) exact = "slopes-pl-differs";
+      std::printf("HR %d slopes ok exact=%s ratio=0 x=0 f=0 enc=0 w=0 cls=within npl=%d nenc=0 arg[0,0] per=0\n", id++, exact.c_str(), pp.size());
     }
   }
   int q = 0;
